@@ -102,7 +102,297 @@ def fixed_point_phase2(rng, ops, results):
     return out
 
 
+
+# ---------------------------------------------------------------------------
+# arrival / steps / derive / wcet / demand
+
+def pick_delta(rng, a):
+    """argument for number_arrivals: small, around multiples of characteristic values, large"""
+    r = rng.random()
+    if r < 0.5:
+        return rng.randint(0, 60)
+    if r < 0.85:
+        return rng.randint(0, 400)
+    return rng.randint(0, 5000)
+
+
+def stream_arrival(rng, n):
+    ops = []
+    for _ in range(n):
+        a = gen.gen_arr(rng, depth=wchoice(rng, [(3, 0), (4, 1), (3, 2), (1, 3)]))
+        s = gen.arr_str(a)
+        r = rng.random()
+        if r < 0.5:
+            ops.append(f"na {s} {pick_delta(rng, a)}")
+        elif r < 0.8:
+            lo = rng.randint(0, 100)
+            ops.append(f"nas {s} {lo} {lo + rng.randint(0, 80)}")
+        else:
+            # jitter composition: a.wj(x).wj(y) and a.wj(x+y) at the same point
+            x, y = rng.randint(0, 20), rng.randint(0, 20)
+            d = pick_delta(rng, a)
+            ops.append(f"na wj {y} wj {x} {s} {d}")
+            ops.append(f"na wj {x + y} {s} {d}")
+    return ops
+
+
+def stream_steps(rng, n):
+    ops = []
+    for _ in range(n):
+        r = rng.random()
+        H = wchoice(rng, [(1, rng.randint(0, 3)), (5, rng.randint(1, 120)), (2, rng.randint(120, 600))])
+        if r < 0.6:
+            a = gen.gen_arr(rng, depth=wchoice(rng, [(3, 0), (4, 1), (3, 2), (1, 3)]))
+            ops.append(f"steps {gen.arr_str(a)} {H}")
+        elif r < 0.7:
+            a = gen.gen_arr(rng, depth=1)
+            sa = gen.arr_str(a)
+            # brute_force_steps_iter never terminates on a bound that stops stepping
+            if "never" in sa or "agg 0" in sa or "sli 0" in sa:
+                sa = "spo 7 9"
+            ops.append(f"bsteps {sa} {min(H, 200)}")
+        elif r < 0.9:
+            rb = gen.gen_rb(rng, depth=wchoice(rng, [(2, 0), (3, 1), (1, 2)]))
+            ops.append(f"rsteps {gen.rb_str(rb)} {H}")
+        else:
+            rb = gen.gen_rb(rng, depth=1)
+            ops.append(f"soff {gen.rb_str(rb)} {min(H, 200)}")
+    return ops
+
+
+def stream_derive(rng, n):
+    ops = []
+    for _ in range(n):
+        r = rng.random()
+        if r < 0.45:
+            c = gen.gen_derived_curve(rng, depth=2)
+            ops.append(f"dmin {gen.arr_str(c)}")
+        elif r < 0.55:
+            c = gen.gen_derived_curve(rng, depth=1)
+            ops.append(f"mind {rng.randint(0, 12)} {gen.arr_str(c)}")
+        elif r < 0.7:
+            a = gen.gen_arr(rng, depth=1, derived=False)
+            ops.append(f"pfx p_abu {rng.randint(0, 80)} {gen.arr_str(a)}")
+        elif r < 0.85:
+            a = gen.gen_arr(rng, depth=1, derived=False)
+            ops.append(f"dmi {rng.randint(0, 14)} {gen.arr_str(a)}")
+        else:
+            # derived curve used as an arrival bound
+            c = gen.gen_derived_curve(rng, depth=1)
+            ops.append(f"na {gen.arr_str(c)} {pick_delta(rng, c)}")
+    return ops
+
+
+def stream_wcet(rng, n):
+    ops = []
+    for _ in range(n):
+        c = gen.gen_cost(rng)
+        s = gen.cost_str(c)
+        r = rng.random()
+        if r < 0.3:
+            ops.append(f"coj {s} {wchoice(rng, [(4, rng.randint(0, 12)), (1, rng.randint(12, 200))])}")
+        elif r < 0.5:
+            lo = rng.randint(0, 10)
+            ops.append(f"cojs {s} {lo} {lo + rng.randint(0, 30)}")
+        elif r < 0.7:
+            ops.append(f"items {s} {rng.randint(0, 25)}")
+        elif r < 0.85:
+            ops.append(f"least {s} {rng.randint(0, 12)}")
+        else:
+            k = rng.random()
+            if k < 0.5:
+                ops.append(f"ccvec cc_tr {rng.randint(1, 6)} {gen.lst([rng.randint(0, 9) for _ in range(rng.randint(0, 14))])}")
+            elif k < 0.8:
+                ops.append(f"ccvec cc_ext {rng.randint(1, 16)} cc {gen.lst(gen.gen_cost_vec(rng))}")
+            else:
+                ops.append(f"ccvec cc_it {gen.lst([rng.randint(0, 20) for _ in range(rng.randint(0, 6))])}")
+    return ops
+
+
+def stream_demand(rng, n):
+    ops = []
+    for _ in range(n):
+        rb = gen.gen_rb(rng, depth=wchoice(rng, [(2, 0), (4, 1), (2, 2)]))
+        s = gen.rb_str(rb)
+        d = wchoice(rng, [(4, rng.randint(0, 60)), (2, rng.randint(60, 400))])
+        r = rng.random()
+        if r < 0.25:
+            ops.append(f"need {s} {d}")
+        elif r < 0.4:
+            ops.append(f"needs {s} {d} {d + rng.randint(0, 40)}")
+        elif r < 0.55:
+            ops.append(f"lw {s} {d}")
+        elif r < 0.7:
+            ops.append(f"jc {s} {min(d, 150)}")
+        elif r < 0.88:
+            ops.append(f"nbn {s} {min(d, 150)} {rng.randint(0, 8)}")
+        else:
+            ops.append(f"nbnc {s} {min(d, 150)} {rng.randint(0, 5)}")
+    return ops
+
+
+# ---------------------------------------------------------------------------
+# analyses
+
+def rb_list_str(rs):
+    return str(len(rs)) + "".join(" " + gen.rb_str(r) for r in rs)
+
+
+def gen_fp_op(rng, kind=None):
+    kind = kind or wchoice(rng, [(1, "fp_p"), (1, "fp_np"), (1, "fp_lp"), (1, "fp_fl")])
+    n = wchoice(rng, [(1, 0), (3, 1), (3, 2), (2, 3)])
+    others = [gen.gen_task_rb(rng, scalar=(rng.random() < 0.85)) for _ in range(n)]
+    lim = gen.gen_limit(rng)
+    B = wchoice(rng, [(3, 0), (4, rng.randint(0, 6))])
+    if kind in ("fp_p", "fp_fl"):
+        tua = gen.gen_rb_maybe_agg(rng, scalar=(rng.random() < 0.8))
+        if kind == "fp_p":
+            return f"fp_p {gen.rb_str(tua)} {rb_list_str(others)} {lim}"
+        return f"fp_fl {gen.rb_str(tua)} {B} {rb_list_str(others)} {lim}"
+    a = gen.gen_task_arr(rng)
+    C = wchoice(rng, [(8, rng.randint(1, 8)), (0.2, 0)])
+    if kind == "fp_np":
+        return f"fp_np {gen.arr_str(a)} {C} {B} {rb_list_str(others)} {lim}"
+    last = wchoice(rng, [(2, 1), (2, C), (4, rng.randint(1, max(C, 1))), (0.2, 0), (0.2, C + 2)])
+    return f"fp_lp {gen.arr_str(a)} {C} {last} {B} {rb_list_str(others)} {lim}"
+
+
+def stream_fp(rng, n):
+    return [gen_fp_op(rng) for _ in range(n)]
+
+
+def gen_edf_op(rng, kind=None):
+    kind = kind or wchoice(rng, [(1, "edf_p"), (1, "edf_np"), (1, "edf_lp"), (1, "edf_fl")])
+    n = wchoice(rng, [(1, 0), (3, 1), (3, 2), (2, 3)])
+    lim = gen.gen_limit(rng)
+    D = wchoice(rng, [(4, rng.randint(1, 40)), (1, rng.randint(40, 200)), (0.5, 0)])
+    same_deadlines = rng.random() < 0.15
+    def dl():
+        return D if same_deadlines else wchoice(rng, [(4, rng.randint(1, 40)), (1, rng.randint(40, 200)), (0.3, 0)])
+    if kind == "edf_p":
+        tua = gen.gen_rb_maybe_agg(rng, scalar=(rng.random() < 0.8))
+        os = [(gen.gen_task_rb(rng, scalar=(rng.random() < 0.85)), dl()) for _ in range(n)]
+        return f"edf_p {gen.rb_str(tua)} {D} {n}" + "".join(f" {gen.rb_str(r)} {d}" for r, d in os) + f" {lim}"
+    if kind == "edf_np":
+        a = gen.gen_task_arr(rng)
+        C = wchoice(rng, [(8, rng.randint(1, 8)), (0.2, 0)])
+        os = [(gen.gen_task_arr(rng), wchoice(rng, [(8, rng.randint(1, 8)), (0.3, 0)]), dl()) for _ in range(n)]
+        return f"edf_np {gen.arr_str(a)} {C} {D} {n}" + "".join(f" {gen.arr_str(x)} {c} {d}" for x, c, d in os) + f" {lim}"
+    os = [(gen.gen_task_rb(rng, scalar=(rng.random() < 0.85)), dl(), wchoice(rng, [(5, rng.randint(1, 6)), (1, 0)])) for _ in range(n)]
+    tail = f" {n}" + "".join(f" {gen.rb_str(r)} {d} {sg}" for r, d, sg in os) + f" {lim}"
+    if kind == "edf_lp":
+        a = gen.gen_task_arr(rng)
+        C = wchoice(rng, [(8, rng.randint(1, 8)), (0.2, 0)])
+        last = wchoice(rng, [(2, 1), (2, C), (4, rng.randint(1, max(C, 1))), (0.2, 0), (0.2, C + 2)])
+        return f"edf_lp {gen.arr_str(a)} {C} {D} {last}" + tail
+    tua = gen.gen_rb_maybe_agg(rng, scalar=(rng.random() < 0.8))
+    return f"edf_fl {gen.rb_str(tua)} {D}" + tail
+
+
+def stream_edf(rng, n):
+    return [gen_edf_op(rng) for _ in range(n)]
+
+
+def stream_fifo(rng, n):
+    ops = []
+    for _ in range(n):
+        k = wchoice(rng, [(1, 1), (3, 2), (3, 3), (1, 4)])
+        rs = [gen.gen_task_rb(rng, scalar=(rng.random() < 0.85)) for _ in range(k)]
+        r = wchoice(rng, [(6, ("ragg", rs)), (2, ("rsli", rs)), (1, rs[0])])
+        ops.append(f"fifo {gen.rb_str(r)} {gen.gen_limit(rng)}")
+    return ops
+
+
+def analysis_phase2(rng, ops, results):
+    """limits around the returned bound"""
+    out = []
+    for op, res in zip(ops, results):
+        if not res.startswith("ok ") or rng.random() < 0.5:
+            continue
+        r = int(res.split()[1])
+        toks = op.split()
+        for lim in {max(r - 1, 0), r, r + 1, 2 * r + 1}:
+            toks[-1] = str(lim)
+            out.append(" ".join(toks))
+    return out
+
+
+def gen_ros_supply(rng):
+    return gen.gen_supply(rng, maxP=wchoice(rng, [(6, 10), (2, 30)]))
+
+
+def stream_ros_e19(rng, n):
+    ops = []
+    for _ in range(n):
+        s = gen.supply_str(gen_ros_supply(rng))
+        lim = gen.gen_limit(rng)
+        k = wchoice(rng, [(2, "es"), (3, "tm"), (3, "pp"), (2, "ch")])
+        own = gen.gen_rb_maybe_agg(rng, scalar=(rng.random() < 0.8), allow_prefix=(rng.random() < 0.1))
+        interf = wchoice(rng, [(5, ("ragg", [gen.gen_task_rb(rng) for _ in range(rng.randint(0, 3))])), (2, gen.gen_task_rb(rng))])
+        if k == "es":
+            ops.append(f"ros_es {s} {gen.rb_str(own)} {lim}")
+        elif k == "tm":
+            ops.append(f"ros_tm {s} {gen.rb_str(own)} {gen.rb_str(interf)} {rng.randint(0, 5)} {lim}")
+        elif k == "pp":
+            ops.append(f"ros_pp {s} {gen.rb_str(own)} {gen.rb_str(interf)} {lim}")
+        else:
+            last = gen.gen_task_rb(rng, allow_prefix=False)
+            pre = [gen.gen_task_rb(rng, allow_prefix=False) for _ in range(rng.randint(0, 2))]
+            prefix = ("ragg", pre)
+            full = ("ragg", pre + [last])
+            ops.append(f"ros_ch {s} {gen.rb_str(last)} {gen.rb_str(prefix)} {gen.rb_str(full)} {gen.rb_str(interf)} {lim}")
+    return ops
+
+
+def gen_workload(rng):
+    n = wchoice(rng, [(2, 1), (4, 2), (4, 3), (2, 4)])
+    cbs = []
+    for i in range(n):
+        a = gen.gen_task_arr(rng, allow_prefix=False)
+        if a[0] == "never":
+            a = ("spo", rng.randint(3, 30), 0)
+        c = wchoice(rng, [(7, ("sc", rng.randint(1, 5))), (2, ("mf", [rng.randint(1, 5) for _ in range(rng.randint(1, 3))])), (1, ("cc", gen.gen_cost_vec(rng)))])
+        kind = wchoice(rng, [(2, "T"), (1, "E"), (2, "U"), (4, f"P {rng.randint(0, 5)}")])
+        rtb = wchoice(rng, [(2, 0), (5, rng.randint(1, 30)), (1, rng.randint(30, 120))])
+        cbs.append((rtb, a, c, kind))
+    m = wchoice(rng, [(5, 1), (3, 2), (1, 3)])
+    sub = [rng.randrange(n) for _ in range(m)]
+    if rng.random() < 0.8:
+        sub = list(dict.fromkeys(sub))
+    return cbs, sub
+
+
+def workload_str(cbs, sub):
+    return str(len(cbs)) + "".join(f" {rtb} {gen.arr_str(a)} {gen.cost_str(c)} {k}" for rtb, a, c, k in cbs) + f" {len(sub)}" + "".join(f" {i}" for i in sub)
+
+
+def stream_ros_rr(rng, n):
+    ops = []
+    for _ in range(n):
+        cbs, sub = gen_workload(rng)
+        ops.append(f"rr {gen.supply_str(gen_ros_supply(rng))} {workload_str(cbs, sub)} {gen.gen_limit(rng)}")
+    return ops
+
+
+def stream_ros_bw(rng, n):
+    ops = []
+    for _ in range(n):
+        cbs, sub = gen_workload(rng)
+        ops.append(f"bw {gen.supply_str(gen_ros_supply(rng))} {workload_str(cbs, sub)} {gen.gen_limit(rng)}")
+    return ops
+
 STREAMS = {
+    "fp": (stream_fp, analysis_phase2),
+    "edf": (stream_edf, analysis_phase2),
+    "fifo": (stream_fifo, analysis_phase2),
+    "ros_e19": (stream_ros_e19, analysis_phase2),
+    "ros_rr": (stream_ros_rr, analysis_phase2),
+    "ros_bw": (stream_ros_bw, analysis_phase2),
+    "arrival": (stream_arrival, None),
+    "steps": (stream_steps, None),
+    "derive": (stream_derive, None),
+    "wcet": (stream_wcet, None),
+    "demand": (stream_demand, None),
     "supply": (stream_supply, None),
     "fixed_point": (stream_fixed_point, fixed_point_phase2),
 }
